@@ -160,6 +160,7 @@ class Module(object):
         self.src = src
         self.tree = ast.parse(src, filename=path)
         self.tree._src = src
+        self.tree._root = path[:-len(relpath)] if path.endswith(relpath) else None
         from sa import alpha
         self.alpha_renames = alpha.normalise(self.tree, relpath)
         self.fn_status = getattr(self.tree, '_sa_status', {})   # key ('Class.method') -> (status, distance, limit)
